@@ -103,6 +103,10 @@ impl Matcher {
         let cost_offsets = self.compute_cost_offsets(&transactions)?;
         let mut future_consumption: HashMap<usize, Decimal> = HashMap::new();
         let mut same_day_reservations: HashMap<(NaiveDate, String), Decimal> = HashMap::new();
+        // Shares actually held per security: acquisitions minus disposals, rescaled by
+        // splits. A disposal identified with a later acquisition (S106A) still leaves
+        // the holding, although it does not reduce the Section 104 pool.
+        let mut positions: HashMap<String, Decimal> = HashMap::new();
 
         // Process transactions in order, grouped by date
         // Buys are added before same-day sells for matching; cost offsets already applied.
@@ -142,13 +146,24 @@ impl Matcher {
                         *fees,
                         AcquisitionExtras::new(cost_offset, reserved),
                     );
+                    *positions.entry(tx.ticker.clone()).or_insert(Decimal::ZERO) += *amount;
                 }
             }
 
             // Process all sells (same-day, B&B, then S104)
             for (offset, tx) in transactions[i..day_end].iter().enumerate() {
-                if matches!(tx.operation, Operation::Sell { .. }) {
+                if let Operation::Sell { amount, .. } = &tx.operation {
                     let idx = i + offset;
+                    let position = positions.entry(tx.ticker.clone()).or_insert(Decimal::ZERO);
+                    if *amount > *position {
+                        return Err(CgtError::InvalidTransaction(format!(
+                            "SELL {} on {}: disposal of {} shares exceeds holding of {} \
+                             (earlier disposals matched to later acquisitions have already \
+                             left the holding)",
+                            tx.ticker, tx.date, amount, position
+                        )));
+                    }
+                    *position -= *amount;
                     self.process_sell(
                         tx,
                         idx,
@@ -170,6 +185,19 @@ impl Matcher {
             // Process splits/unsplits
             for tx in &transactions[i..day_end] {
                 self.process_corporate_action(tx)?;
+                match &tx.operation {
+                    Operation::Split { ratio } => {
+                        if let Some(position) = positions.get_mut(&tx.ticker) {
+                            *position *= *ratio;
+                        }
+                    }
+                    Operation::Unsplit { ratio } if *ratio != Decimal::ZERO => {
+                        if let Some(position) = positions.get_mut(&tx.ticker) {
+                            *position /= *ratio;
+                        }
+                    }
+                    _ => {}
+                }
             }
 
             i = day_end;
